@@ -23,7 +23,7 @@ PROPS = {
     "C13": (["hist_random", "mc_quick"], "TLC trace validation of Graph / Commit / ReadBack"),
     "C14": (["hist_random", "mc_quick"], "TLC trace validation of Travel / Retrievable"),
     "C15": (["hist_random", "mc_quick"], "TLC trace validation of Unstage / ExportReplay / Guards / CommitCleans"),
-    "C16": (["hist_random", "mc_quick", "fn_diff"], "TLC trace validation of Reconstructs / StoredEqualsSubmitted"),
+    "C16": (["hist_random", "mc_quick", "fn_diff", "mc_chain"], "TLC trace validation of Reconstructs / StoredEqualsSubmitted"),
     "C17": (["kv", "multi_backend"], "every backend stack against the KVStore model (KVTrace.tla) on seeded operation sequences; the same histories over every backend in lock-step (MultiRun.tla)"),
     "C18": (["multi_config"], "the same histories under pool sizes 1..16, permuted listing orders, cache capacities 1..3 and fresh hash seeds, compared step by step (MultiRun.tla)"),
     "C19": (["hist_random", "mc_quick", "fn_revision"], "TLC trace validation of Canonical / LeafOrderTotal"),
@@ -410,6 +410,37 @@ def st_specmutants(tier, seed, d):
             "specmutants": [{"bug": r[0], "result": r[1], "violated": r[2]} for r in rows], "raw": p.stdout[-3000:]}
 
 
+def st_mc_chain(tier, seed, d):
+    """ArrayChain: the LRU-cached chain walk of rebuild_array_order, every access sequence over three
+    version trees, capacities 1..3 (quick) / 1..4 (thorough); plus two transcribed defects that must be caught."""
+    import re
+    os.makedirs(d, exist_ok=True)
+    caps = (1, 2, 3) if tier == "quick" else (1, 2, 3, 4)
+    tot_g = tot_d = 0
+    runs = []
+    def cfg(shape, k, bug):
+        path = os.path.join(d, "ac_%d_%d_%s.cfg" % (shape, k, bug or "ok"))
+        open(path, "w").write("SPECIFICATION Spec\nCONSTANTS\n  N <- NDef\n  Par <- ParDef\n  Kind <- KindDef\n  Shape = %d\n  K = %d\n  Bug = {%s}\n"
+                              "INVARIANTS\n  RebuildCorrect\n  CacheCorrect\n  CacheBounded\nCHECK_DEADLOCK FALSE\n" % (shape, k, ('"%s"' % bug) if bug else ""))
+        return path
+    for shape in (1, 2, 3):
+        for k in caps:
+            rc, out = vlib.run_tlc(os.path.join(vlib.SPEC, "ArrayChainMC.tla"), cfg(shape, k, None), workers=2, xmx="2g", timeout=600, queue_deque=False)
+            if "No error has been found" not in out:
+                raise vlib.ToolError("ArrayChainMC shape %d K %d failed (model-only result, never a VIOLATION):\n%s" % (shape, k, out[-1500:]))
+            m = re.search(r"(\d+) states generated, (\d+) distinct", out)
+            tot_g += int(m.group(1)); tot_d += int(m.group(2))
+            runs.append({"shape": shape, "K": k, "distinct": int(m.group(2))})
+    mutants = []
+    for bug, shape in (("cache_off_by_one", 1), ("skip_deleted", 2)):
+        rc, out = vlib.run_tlc(os.path.join(vlib.SPEC, "ArrayChainMC.tla"), cfg(shape, 3, bug), workers=2, xmx="2g", timeout=600, queue_deque=False)
+        m = re.search(r"Invariant (\w+) is violated", out)
+        mutants.append({"bug": bug, "result": "CAUGHT" if m else "MISSED", "violated": m.group(1) if m else None})
+    return {"violations": [], "counts": {}, "tlc_states": 0, "events": 0, "runs": 0, "timeouts": [],
+            "model": {"config": "ArrayChainMC (3 trees x capacities %s)" % (caps,), "states_generated": tot_g, "distinct_states": tot_d, "runs": runs},
+            "specmutants": mutants}
+
+
 def fn_stage(which):
     def run(tier, seed, d):
         info = vlib.run_fn(which, d, tier, seed)
@@ -460,7 +491,7 @@ STAGES = {"hist_random": st_hist_random, "fn_merge": fn_stage("merge"), "fn_diff
           "mc_damage": mc_stage("MC_damage.cfg", 300, 4000, 0, 0, workers=14), "mc_two_arrays": mc_stage("MC_two_arrays.cfg", 300, 3000, 0, 100, workers=14),
           "mc_three": mc_stage("MC_three.cfg", 300, 3000, 0, 100, workers=14),
           "mc_objapi": mc_stage("MC_objapi.cfg", 200, 2000, 0, 50, workers=14),
-          "selftest_binding": st_selftest_binding, "specmutants": st_specmutants,
+          "mc_chain": st_mc_chain, "selftest_binding": st_selftest_binding, "specmutants": st_specmutants,
           "kv": st_kv, "multi_config": multi_stage("config"), "multi_backend": multi_stage("backend")}
 
 # ---------------------------------------------------------------- known findings
